@@ -33,6 +33,9 @@ def instances(tier, seed):
     add("place:S1:chiral4->big:axis1", struct='S1', repl='chiral4->big', axes=[1], other=(0.95, 0, 0.45), cost=20)
     add("place:S2:chiral4->CHSP:axis1:triclinic", struct='S2', repl='chiral4->CHSP', axes=[1], other=(0.5, 0, 0.9), cost=40)
     add("place:S2:chiral4->big:axis2:triclinic:replace_all", struct='S2', repl='chiral4->big', axes=[2], other=(0.5, 0.1, 0), replace_all=True, cost=40)
+    add("place:S1:chiral4->big:axis0:patterns-carry-their-own-cells", struct='S1', repl='chiral4->big', axes=[0], other=(0, 0.6, 0.45), pattern_cells=True, cost=20)
+    add("place:S2:chiral4->CHSP:axis2:triclinic:patterns-carry-their-own-cells", struct='S2', repl='chiral4->CHSP', axes=[2], other=(0.5, 0.3, 0), pattern_cells=True, cost=40)
+    add("place:S5:pair->CH-moved-0.05A:axis1", struct='S5', repl='pair->CH-moved-0.05A', axes=[1], other=(0.4, 0, 0.9), cost=40)
     add("place:S3:planar3->CNF:axis1", struct='S3', repl='planar3->CNF', axes=[1], other=(0.9, 0, 0.2), cost=20)
     add("place:S15:planar3->CNF:axis0:triclinic", struct='S15', repl='planar3->CNF', axes=[0], other=(0, 0.6, 0.2), cost=20)
     add("place:S4:collinear3->OCF:axis0", struct='S4', repl='collinear3->OCF', axes=[0], other=(0, 0.5, 0.8), cost=40)
